@@ -25,3 +25,39 @@ def run_history_and_predicates(ctx):
     ctx.cov.setdefault("growth", {})["history_predicates"] = {"history_traces": len(json.load(open(hf))), "predicate_cases": len(json.load(open(pf))),
                                                               "mismatches": n, "trace_states": r.distinct + r2.distinct}
     ctx.cov["transitions"] += r.generated + r2.generated
+
+
+def run_http_layer(ctx):
+    """HttpLayer.tla: one raw HTTP exchange with the request handler as a step machine; every request class of the model
+    is sent to real SimpleJSONRPCServer / PooledJSONRPCServer listeners (quick: a sample)."""
+    ctx.model("MC_HttpLayer", "MC_HttpLayer_TRUE.cfg", workers=4, timeout=300)
+    cases = casejudge.enumerate_cases(ctx, "MC_HttpLayer", "MC_HttpLayer_FALSE.cfg", workers=4, timeout=300)
+    if ctx.tier == "quick":
+        import random
+        cases = random.Random(ctx.seed).sample(cases, min(len(cases), 500))
+    cf, of = ctx.path("growth_http_cases.json"), ctx.path("growth_http.json")
+    json.dump(cases, open(cf, "w"))
+    common.run_py(os.path.join(VERIF, "harness", "http_run.py"), ["run", cf, of, ctx.seed])
+    r = common.tlc("HttpLayerJudge", "HttpLayerJudge.cfg", env={"CASES_FILE": of}, workers=1, timeout=600)
+    if r.errors or not r.finished:
+        raise common.MachineryError("HttpLayerJudge did not complete:\n" + "\n".join(r.errors)[:1500])
+    recs = json.load(open(of))
+    n = 0
+    for m in re.finditer(r'<<"GROWTHFAIL", (\d+), "(\w+)", (\d+)>>', r.out):
+        n += 1
+        if n <= 5:
+            q = recs[int(m.group(1)) - 1]
+            print("GROWTH-FINDING (not a listed property): %s differs from HttpLayer.tla for %s on the %s server: observed %s" % (
+                m.group(2), json.dumps(q["req"]), q["server"], json.dumps(q["obs"])))
+    ctx.cov.setdefault("growth", {})["http_layer"] = {"exchanges": len(recs), "mismatches": n, "judge_states": r.distinct,
+                                                     "documented_gap": "gzip-encoded request bodies are never served (GzipServed fails for GzipFirst = FALSE)"}
+    ctx.cov["transitions"] += r.generated
+
+
+def safely(ctx, fn):
+    """Growth runs never decide a listed property: a failure of theirs is reported, it does not change the verdict."""
+    try:
+        fn(ctx)
+    except Exception as e:  # noqa
+        print("GROWTH-NOTE: %s could not complete (%s: %s)" % (fn.__name__, type(e).__name__, str(e)[:300].replace("\n", " | ")))
+        ctx.cov.setdefault("growth", {})[fn.__name__] = {"incomplete": str(e)[:300]}
